@@ -219,12 +219,12 @@ theorem err_shape (c : Cfg) (s : State) (t : Tok) (h : (stepCore c s t).1 = .err
 /-! ### a refused lock request -/
 
 theorem dryocMlock_refused {c : Cfg} {m : Mach} {a l : Nat} (hl : l ≠ 0) (hr : m.oracle (m.cnt + 1) = false) :
-    dryocMlock c m a l = ({ m with cnt := m.cnt + 1 }, false) := by
+    dryocMlock c m a l = (failedLock c m m.k a l, false) := by
   unfold dryocMlock; simp [hl, hr]
 
 theorem lockV_refused {c : Cfg} {m : Mach} {v : PVec} (pm : PM) (hl : v.len ≠ 0)
     (hr : m.oracle (m.cnt + 1) = false) :
-    lockV c m v pm = (protDrop c { m with cnt := m.cnt + 1 } v .unlocked pm, false) := by
+    lockV c m v pm = (protDrop c (failedLock c m m.k (ptr c v) v.len) v .unlocked pm, false) := by
   unfold lockV; simp [dryocMlock_refused hl hr]
 
 /-- the drop of an (internally) unlocked region never touches a lock flag -/
@@ -239,5 +239,19 @@ theorem protDrop_unlocked_rel (c : Cfg) (hw : c.wipe = true) (m : Mach) (v : PVe
   unfold protDrop plainDrop vecDrop
   by_cases h1 : pm = .rw <;> by_cases h2 : v.cap = 0 <;>
     simp [h1, h2, hz, dealloc_rel, hw, nonzero_wipe]
+
+theorem munlockK_locked_false {P : Nat} {k : Kernel} {a l p : Nat} (h : k.locked p = false) :
+    (munlockK P k a l).locked p = false := by
+  simp only [munlockK, setRange_apply]; split <;> simp [h]
+
+theorem failedLock_locked_false {c : Cfg} {m : Mach} {a l p : Nat} (h : m.k.locked p = false) :
+    (failedLock c m m.k a l).k.locked p = false := by
+  unfold failedLock; simp only []
+  split
+  · exact munlockK_locked_false h
+  · exact h
+
+@[simp] theorem failedLock_rel (c : Cfg) (m : Mach) (k : Kernel) (a l : Nat) :
+    (failedLock c m k a l).rel = m.rel := rfl
 
 end DryocVerif.Proofs.Protected
